@@ -114,7 +114,15 @@ public:
     explicit(N != rank_dynamic()) constexpr extents(span<OtherIndexType, N> ext) noexcept
     {
         if constexpr (rank_dynamic() != 0) {
-            transform(ext.begin(), ext.end(), _extents.begin(), [](auto e) { return static_cast<IndexType>(e); });
+            if constexpr (N == rank_dynamic()) {
+                transform(ext.begin(), ext.end(), _extents.begin(), [](auto e) { return static_cast<IndexType>(e); });
+            } else {
+                for (rank_type i{0}; i < rank(); ++i) {
+                    if (static_extent(i) == dynamic_extent) {
+                        _extents[_dynamic_index(i)] = static_cast<IndexType>(ext[i]);
+                    }
+                }
+            }
         }
     }
 
